@@ -101,15 +101,37 @@ def run_rx(chunks, pack_seq=0, ack_event="n", open_transport=True, buf=b"", rais
     return " / ".join(parts) + " // seq=%d ev=%s buf=%s" % (proto._pack_seq, evs, bytes(proto._buffer).hex() or "-"), proto
 
 
+def ref_crc8(data):
+    """CRC-8/KOOP, bit by bit (poly 0x4D reflected = 0xB2, init 0xFF, xorout 0xFF): independent of the library's table."""
+    c = 0xFF
+    for b in bytes(data):
+        c ^= b
+        for _ in range(8):
+            c = (c >> 1) ^ 0xB2 if c & 1 else c >> 1
+    return c ^ 0xFF
+
+
+def ref_crc16(data):
+    """CRC-16/KERMIT, bit by bit (poly 0x1021 reflected = 0x8408, init 0, xorout 0)."""
+    c = 0
+    for b in bytes(data):
+        c ^= b
+        for _ in range(8):
+            c = (c >> 1) ^ 0x8408 if c & 1 else c >> 1
+    return c
+
+
+assert ref_crc8(b"123456789") == 0xD8 and ref_crc16(b"123456789") == 0x2189
+
+
 def build_frame_bytes(header, data, flags, good=True, crc8=None, size=None, ftype=6, crc16=None):
-    """Independent construction of frame bytes (not through the library's serializer)."""
-    from zigpy_zboss.checksum import CRC8, CRC16
+    """Independent construction of frame bytes (neither the library's serializer nor its checksum tables)."""
     body = b""
     if not (flags & 1):
         payload = (int(header).to_bytes(4, "little") if header is not None else b"") + bytes(data)
-        c = int(CRC16(payload).digest()) if crc16 is None else crc16
+        c = ref_crc16(payload) if crc16 is None else crc16
         body = c.to_bytes(2, "little") + payload
     sz = (5 + len(body)) if size is None else size
     hdr4 = sz.to_bytes(2, "little") + bytes([ftype, flags])
-    c8 = int(CRC8(hdr4).digest()) if crc8 is None else crc8
+    c8 = ref_crc8(hdr4) if crc8 is None else crc8
     return b"\xde\xad" + hdr4 + bytes([c8]) + body
